@@ -28,10 +28,16 @@ SecRuleEngine On
 SecRequestBodyAccess On
 SecResponseBodyAccess On
 SecResponseBodyMimeType text/plain
-SecAuditEngine On
+SecAuditEngine AUDITENGINE
 SecAuditLogParts ABHKZ
 SecAuditLogFormat JSON
 `
+	// variants 2 and 3: auditing is off and switched on per transaction by ctl:auditEngine
+	if variant&2 != 0 {
+		cfg = strings.Replace(cfg, "AUDITENGINE", "Off", 1)
+	} else {
+		cfg = strings.Replace(cfg, "AUDITENGINE", "On", 1)
+	}
 	if variant%2 == 0 {
 		cfg += "SecAuditLogType Serial\nSecAuditLog " + auditFile + "\n"
 	} else {
@@ -42,6 +48,7 @@ SecRule ARGS_GET:cx1 "@streq 1" "id:10,phase:1,pass,nolog,ctl:ruleRemoveTargetBy
 SecRule ARGS_GET:cx2 "@streq 1" "id:11,phase:1,pass,nolog,ctl:ruleRemoveTargetById=200;ARGS_GET:x2"
 SecRule ARGS_GET:cx3 "@streq 1" "id:12,phase:1,pass,nolog,ctl:ruleRemoveTargetById=200;ARGS_GET:/^x3/"
 SecRule ARGS_GET:cr "@streq 1" "id:13,phase:1,pass,nolog,ctl:ruleRemoveById=201"
+SecRule ARGS_GET:au "@streq 1" "id:15,phase:1,pass,nolog,ctl:auditEngine=On"
 SecRule ARGS_GET:se "@streq 1" "id:14,phase:1,pass,nolog,setenv:VERIF_C06=%{ARGS_GET.se},setvar:tx.env=1"
 SecRule ARGS_GET|!ARGS_GET:e1|!ARGS_GET:e2|!ARGS_GET:e3 "@streq hit" "id:200,phase:2,pass,log,auditlog,t:trim,t:lowercase,setvar:tx.n200=+1"
 SecRule ARGS_GET:x1|ARGS_GET:x2 "@rx ^h(i)t$" "id:201,phase:2,pass,log,capture,t:lowercase,t:trim,setvar:tx.n201=+1,setvar:tx.c201=%{TX.1}"
@@ -69,7 +76,7 @@ SecRule ARGS "@rx ^h(i)t$" "id:1,phase:2,pass"
 SecRule ARGS "@rx le+ak" "id:2,phase:2,pass"`,
 }
 
-var c06Steers = []string{"cx1", "cx2", "cx3", "cr", "se", "e1", "e2", "x1", "x2", "x3a", "d", "nid", "other"}
+var c06Steers = []string{"au", "cx1", "cx2", "cx3", "cr", "se", "e1", "e2", "x1", "x2", "x3a", "d", "nid", "other"}
 
 func c06Request(r gen.R) *sl.Req {
 	req := &sl.Req{Method: "GET", Path: gen.Pick(r, []string{"/api/user/7", "/plain", "/api/x/y"}), Status: 200, RespHeaders: []sl.KV{{K: "Content-Type", V: "text/plain"}}}
@@ -177,7 +184,10 @@ func c06JudgeAudit(w *fw.W, text string, pr c06Params, auditFile, auditDir strin
 		w.Violation("audit-log-unreadable-after-concurrent-phase", "audit-log judge", vcase, nil, nil, err.Error())
 		return
 	}
-	lines := strings.Split(strings.TrimRight(string(data), "\n"), "\n")
+	var lines []string
+	if t := strings.TrimRight(string(data), "\n"); t != "" {
+		lines = strings.Split(t, "\n")
+	}
 	if pr.Variant%2 == 0 {
 		ids := map[string]bool{}
 		for _, ln := range lines {
@@ -314,6 +324,13 @@ func c06Run(w *fw.W, b fw.Batch) {
 			w.Violation("shared-waf-build-fails", "construction", map[string]any{"config": text}, nil, nil, err.Error())
 			return
 		}
+		// a second WAF with the same configuration shares the audit log target (two virtual hosts, or the
+		// old and the new WAF during a reload); odd goroutines use it
+		shared2, err := sl.BuildText(text)
+		if err != nil {
+			w.Violation("shared-waf-build-fails", "construction", map[string]any{"config": text}, nil, nil, err.Error())
+			return
+		}
 		var wg sync.WaitGroup
 		var mismatches atomic.Int64
 		stop := make(chan struct{})
@@ -355,7 +372,11 @@ func c06Run(w *fw.W, b fw.Batch) {
 				defer wg.Done()
 				for j := 0; j < pr.PerG; j++ {
 					i := g*pr.PerG + j
-					got := sl.Exec(shared, reqs[i])
+					wf := shared
+					if g%2 == 1 {
+						wf = shared2
+					}
+					got := sl.Exec(wf, reqs[i])
 					w.Eval(1)
 					if !stable[i] {
 						continue
@@ -374,7 +395,20 @@ func c06Run(w *fw.W, b fw.Batch) {
 		bwg.Wait()
 		w.Count("concurrent_transactions", total)
 		w.Count("rounds", 1)
-		c06JudgeAudit(w, text, pr, auditFile, auditDir, total)
+		audited := total
+		if pr.Variant&2 != 0 {
+			audited = 0
+			for _, rq := range reqs {
+				for _, kv := range rq.Get {
+					if kv.K == "au" && kv.V == "1" {
+						audited++
+						break
+					}
+				}
+			}
+		}
+		c06JudgeAudit(w, text, pr, auditFile, auditDir, audited)
+		sl.CloseWAF(shared2)
 		for k := 0; k < 6; k++ {
 			c06ConcurrentConstruction(w, round*10+k)
 		}
@@ -434,12 +468,13 @@ func init() {
 			if tier == fw.Quick {
 				add(0, 4, 16, 60, 2, 2)
 				add(1, 4, 16, 60, 2, 2)
-				add(0, 2, 8, 80, 2, 2)
-				add(1, 16, 64, 20, 4, 2)
+				add(2, 2, 8, 80, 2, 2)
+				add(3, 16, 64, 20, 4, 2)
 			} else {
 				for rep := 0; rep < 4; rep++ {
 					for _, procs := range []int{1, 2, 4, 16} {
 						for variant := 0; variant < 2; variant++ {
+							variant := variant + 2*(rep%2)
 							add(variant, procs, []int{4, 16, 64}[(rep+variant)%3], 120, 3, 4)
 						}
 					}
